@@ -500,7 +500,7 @@ def consumers(rep, prog):
             else:
                 rep.violation("C18.consumers", prog, it, n, "divider given %s as edge length" % a, "cell_divider::run must receive sim_parameters_.min_edge_len_")
     rn = prog.fn("solver::run")
-    conds = [render(n["cond"]) for n in walk(rn["body"]) if n.get("k") == "WhileStmt"]
+    conds = [render(n["cond"]) for n in walk(rn["body"]) if n.get("k") in ("WhileStmt", "ForStmt", "DoStmt") and isinstance(n.get("cond"), dict)]
     # the iteration is executed only while simulated time < simulation_duration_: a condition that dominates the call of
     # run_iteration (the loop condition, or an 'if(!(t < T)) break;' in front of it)
     ri = prog.index(rn)
@@ -508,17 +508,14 @@ def consumers(rep, prog):
     for cl in [n for n in walk(rn["body"]) if is_call(n) and n.get("callee") == "solver::run_iteration"]:
         if ri.enclosing(cl, ("WhileStmt", "ForStmt", "DoStmt")) is None:
             continue
-        for cond, pol in ri.guards(cl):
-            for x in walk(cond):
-                if x.get("k") == "BinaryOperator" and x.get("op") in ("<", ">", "<=", ">="):
-                    l, r = render(x["c"][0]), render(x["c"][1])
-                    # polarity of x inside cond (negations above it)
-                    from ..e2 import _negations_above
-                    truth = (pol != _negations_above(cond, x))
-                    lt = ("get_simulation_time" in l and "simulation_duration_" in r and x["op"] == "<") or ("simulation_duration_" in l and "get_simulation_time" in r and x["op"] == ">")
-                    ge = ("get_simulation_time" in l and "simulation_duration_" in r and x["op"] == ">=") or ("simulation_duration_" in l and "get_simulation_time" in r and x["op"] == "<=")
-                    if (lt and truth) or (ge and not truth):
-                        good = True
+        from ..model import facts_at
+        for x, truth in facts_at(rn, ri, cl):
+            if x.get("k") == "BinaryOperator" and x.get("op") in ("<", ">", "<=", ">="):
+                l, r = render(x["c"][0]), render(x["c"][1])
+                lt = ("get_simulation_time" in l and "simulation_duration_" in r and x["op"] == "<") or ("simulation_duration_" in l and "get_simulation_time" in r and x["op"] == ">")
+                ge = ("get_simulation_time" in l and "simulation_duration_" in r and x["op"] == ">=") or ("simulation_duration_" in l and "get_simulation_time" in r and x["op"] == "<=")
+                if (lt and truth) or (ge and not truth):
+                    good = True
     if good:
         rep.ok("C18.consumers", prog, rn, None, "run loop: simulation time < simulation_duration_")
     else:
